@@ -192,6 +192,21 @@ def sinksOf (net : List (Bond × Bond)) (drv : Bond) : List Bond :=
   ((net.map (·.2)).eraseDups).filter fun s => driverOf net s == some drv
 
 open Topology in
+/-- the bonds a source asks for: one (driver, sink) per connected sink -/
+def wiringOf (src : Source) (ports : List (Nat × Nat)) : List (Bond × Bond) :=
+  let net := netOf src ports
+  ((net.map (·.2)).eraseDups).filterMap fun s => (driverOf net s).map fun d => (d, s)
+
+/-- the machine has the external ports the source's `ioatt` lines name (highest index + 1 of each
+    kind) and exactly the bonds they ask for, among the ports its processors have.  Tie-only: it is
+    evaluated on every machine the real assembler emits from a source whose `cpdef`/`ioatt` lines
+    the oracle can read (and on the model assembler's own output); no theorem is stated about it. -/
+def wiringAgrees (src : Source) (bm : BM) : Bool :=
+  let ps := pairs src.procs src.ioatts
+  bm.topo.inputs == extCount 0 ps && bm.topo.outputs == extCount 1 ps &&
+  Topology.sameSet (Topology.bonds bm.topo) (wiringOf src (bm.cps.map fun cp => (cp.arch.n, cp.arch.m)))
+
+open Topology in
 def drvValue (ext : ExtEnv) (sts : List RefState) (d : Bond) : Nat × Bool :=
   if d.kind == 0 then (ext.inputs d.res, ext.inValid d.res)
   else match sts[d.res]? with
